@@ -457,6 +457,7 @@ class MProcess(QOperation):
 
         new_hss = []
         for hs in hss:
+            hs = hs.copy()
             hs[0] -= vec / len(hss)
             new_hss.append(hs)
 
